@@ -8,7 +8,7 @@ import nbformat
 
 import nbdime.log
 from ..diff_format import (
-    DiffOp, op_removerange, op_remove, op_patch, op_replace)
+    DiffOp, op_add, op_removerange, op_remove, op_patch, op_replace)
 from ..patching import patch
 from ..utils import (
     r_is_int, star_path, join_path, is_prefix_array, find_shared_prefix)
@@ -576,6 +576,13 @@ def resolve_action(base, decision):
 
     elif a in ("clear", "remove"):
         key, = set(d.key for d in decision.local_diff + decision.remote_diff)
+        if isinstance(base, dict) and key not in base:
+            # Both sides added the key (with different values): the cleared
+            # form of the new value is added, and there is nothing to remove
+            if a == 'clear':
+                added = (decision.local_diff or decision.remote_diff)[0].value
+                return [op_add(key, make_cleared_value(added))]
+            return []
         if a == 'clear':
             return [op_replace(key, make_cleared_value(base[key]))]
         elif isinstance(base, (list, str)):
